@@ -78,6 +78,12 @@ fn vecs4() -> Vec<[f32; 4]> {
     // cancellation pairs: (a, -a(1+d))
     v.push([1.0 + 1.0 / 1024.0, -2.0, 3.0, -4.0]);
     v.push([7.0, 7.0, -7.0, 7.0]);
+    // the ends of the finite range ("all finite inputs"): values whose pairwise sums overflow, and
+    // subnormals with odd mantissas (where halving is inexact)
+    v.push([f32::MAX, -f32::MAX, 2.5e38, f32::MAX * 0.75]);
+    v.push([3e38, 3e38, -3e38, 1e38]);
+    v.push([f32::from_bits(1), f32::from_bits(3), -f32::from_bits(5), f32::from_bits(0x007f_ffff)]);
+    v.push([f32::from_bits(0x0080_0001), -f32::from_bits(7), f32::MIN_POSITIVE, f32::from_bits(0x0000_0101)]);
     v
 }
 fn scal() -> Vec<f32> {
